@@ -14,6 +14,7 @@ LEVEL_TEXT = ("Held on the executions produced: every generated (input, builder,
               "checked against the skeleton oracle by direct traversal. Pathological depth families go past the recursion "
               "limit for every element role; this is exploration, not proof.")
 BUDGET_S = {"quick": 45, "thorough": 600}
+STALL_S = 900  # one deep quadratic case may legitimately run for minutes on a loaded machine
 RULE = ("cases = (input, source kind, builder, namespacing, document|fragment+container, scripting) drawn from "
         "pathological depth/length families (deterministic), markup soup, structure-aware misnesting, random str "
         "and random bytes; every case is run under an exception trap, a logical step budget (Python function "
@@ -253,6 +254,9 @@ def pathological(tier):
     DEEP_NAMES = ("b", "div", "li", "rt", "td", "svg", "option", "span", "p", "button", "a", "table", "select")
     depths = [1500] if tier == "quick" else [1500, 5000]
     deep = [3000] if tier == "quick" else [20000, 50000]
+    # measured under the step-counting monitor: div/rt (scope walks per start tag) cost ~125 s at depth 10000, b/svg/span
+    # ~13 s at 20000, the rest are linear; the deepest rungs are chosen so that one case stays well below the watchdog
+    deep_for = {"div": [7000], "rt": [7000], "b": [20000], "svg": [20000], "span": [20000]} if tier != "quick" else {}
     fams = []
     for role, names in sorted(ROLE_FAMILIES.items()):
         for nm in names:
@@ -267,7 +271,7 @@ def pathological(tier):
                 fams.append(("select+%s*%d" % (nm, d), "<select>" + o * d))
                 fams.append(("svg+%s*%d" % (nm, d), "<svg>" + o * d + "</svg><p>"))
             if nm in DEEP_NAMES:
-                for d in deep:
+                for d in deep_for.get(nm, deep):
                     fams.append(("%s*%d" % (nm, d), o * d))
                     if nm in ("rt", "li", "option", "p", "div"):
                         fams.append(("div+%s*%d+/div" % (nm, d), "<div>" + o * d + "</div>"))
